@@ -46,7 +46,12 @@ sits in front of it; it took a from-scratch reference built from the requested n
 oracles through the public interface and the regenerated call-site lists (section 3.3) to see them.  Two wave-4 changes (C16-m7, C16-m8)
 leave the observation point of their property (`point_polygon_check`) untouched and are caught by C04, whose clause they break; one
 (C10-m7) is a loader change caught by C17.  One change (C15-m8) exposed a genuine defect of the unchanged tree (F23) because catching it
-needed a reference that did not come from the implementation.  The whole set was also run with other PRNG seeds (`VERIF_SEED=1`, the seed `vp check` uses): three
+needed a reference that did not come from the implementation.  Wave 5 (20 changes, ten properties) asked for legal-but-unusual values (exactly 0, integer-typed loads, look-alike option values), the second use of an
+object / module / process, combinations of optional features and the reporting side: 3 of 20 were caught at first try.  What it took: the
+reference simulation moved into an interpreter of its own (module-level caches with incomplete keys survive in the process and would have been
+shared by the reference), fluid properties taken straight from pygfunction, zero-valued and integer-typed inputs, second studies on the same
+manager with the same report strings, input files through the command-line worker in sequence, the validator called twice on an edited file, and
+an oracle on the Q column of the written time table (which exposed F25; a sub-agent's aside led to F24).  The whole set was also run with other PRNG seeds (`VERIF_SEED=1`, the seed `vp check` uses): three
 changes (C04-m5, C10-m6, C14-m4) turned out to be caught by a random draw of the default seed only and each got a directed, seed-independent
 input family; thirteen changes that were reported through a broken obligation alone (`no-failing-input-found`) were used to extend the oracles
 until ten of them are reported with a concrete failing input.  Changes to *translated* functions are always
